@@ -132,13 +132,14 @@ func runConn(n int, out, replay string) {
 // ---- req: remote spawn / application start between two real nodes ----------------------------------
 
 type reqCase struct {
-	Kind   string   `json:"kind"`       // spawn | app
-	Flags  flagsJ   `json:"flags"`      // the target's flags for this connection: its acceptor's (target accepts) or its route's (target dials)
-	NodeFl flagsJ   `json:"node_flags"` // the target's node-level flags (NetworkOptions.Flags): used when the connection has none of its own
-	Dial   bool     `json:"dial"`       // the TARGET opened the connection; the request comes back over it from the accepting side
-	Expose bool     `json:"expose"`
-	Rogue  bool     `json:"rogue"` // the requester ignores what the target advertised (its handshake reports all capabilities on)
-	Ops    []tabOp  `json:"ops"`   // history on the target; peer 1 is the requester
+	Kind   string   `json:"kind"`         // spawn | app
+	Flags  flagsJ   `json:"flags"`        // the target's flags for this connection: its acceptor's (target accepts) or its route's (target dials)
+	NodeFl flagsJ   `json:"node_flags"`   // the target's node-level flags (NetworkOptions.Flags): used when the connection has none of its own
+	Dial   bool     `json:"dial"`         // the TARGET opened the connection; the request comes back over it from the accepting side
+	Expose bool     `json:"expose"`       // the requester's exposure switch FOR THIS KIND of request
+	ExpOth bool     `json:"expose_other"` // its switch for the other kind (must not matter)
+	Rogue  bool     `json:"rogue"`        // the requester ignores what the target advertised (its handshake reports all capabilities on)
+	Ops    []tabOp  `json:"ops"`          // history on the target; peer 1 is the requester
 	Name   int      `json:"name"`
 	Tags   []string `json:"tags,omitempty"`
 }
@@ -174,7 +175,7 @@ func (r rogueHS) Version() gen.Version {
 	return v
 }
 
-func startReqPair(fl flagsJ, nodefl flagsJ, dial bool, expose bool, rogue bool) *reqPair {
+func startReqPair(fl flagsJ, nodefl flagsJ, dial bool, exposeSpawn bool, exposeApp bool, rogue bool) *reqPair {
 	ob := gen.NodeOptions{}
 	ob.Network.Cookie = "req-cookie"
 	ob.Network.Flags = nodefl.gen()
@@ -185,8 +186,8 @@ func startReqPair(fl flagsJ, nodefl flagsJ, dial bool, expose bool, rogue bool) 
 	b := startNode("rb", ob)
 	oa := gen.NodeOptions{Env: map[gen.Env]any{"VERIFMARK": "from-requester"}}
 	oa.Network.Cookie = "req-cookie"
-	oa.Security.ExposeEnvRemoteSpawn = expose
-	oa.Security.ExposeEnvRemoteApplicationStart = expose
+	oa.Security.ExposeEnvRemoteSpawn = exposeSpawn
+	oa.Security.ExposeEnvRemoteApplicationStart = exposeApp
 	if rogue {
 		oa.Network.Handshake = rogueHS{handshake.Create(handshake.Options{})}
 	}
@@ -327,6 +328,13 @@ func runReq(n int, out, replay string) {
 				cases = append(cases, reqCase{Kind: k, Flags: fl, Rogue: true, Name: 1, Ops: []tabOp{{true, 1, b2i(k == "spawn"), nil}}})
 			}
 		}
+		// the two exposure switches are independent: the environment travels with a spawn request only under the
+		// spawn switch, with an application-start request only under the application-start switch
+		for _, k := range []string{"spawn", "app"} {
+			for _, ex := range []bool{false, true} {
+				cases = append(cases, reqCase{Kind: k, Flags: flagsOf(gen.DefaultNetworkFlags), Expose: ex, ExpOth: !ex, Name: 1, Ops: []tabOp{{true, 1, b2i(k == "spawn"), nil}}})
+			}
+		}
 		// the target dials and has only node-level flags (no route flags): they decide, in both directions of the table
 		for _, nf := range nodeConfigs[2:] {
 			for _, k := range []string{"spawn", "app"} {
@@ -341,6 +349,7 @@ func runReq(n int, out, replay string) {
 					t := genTabCase(r)
 					// make the requester (peer 1) and the requested name matter
 					c := reqCase{Kind: t.Kind, Flags: fl, Expose: ex, Ops: t.Ops, Name: 1 + r.Intn(2)}
+					c.ExpOth = r.Intn(2) == 0
 					c.NodeFl = nodeConfigs[r.Intn(len(nodeConfigs))]
 					c.Dial = r.Intn(2) == 0
 					cases = append(cases, c)
@@ -358,10 +367,14 @@ func runReq(n int, out, replay string) {
 		}
 	}()
 	for _, c := range cases {
-		key := fmt.Sprintf("%v/%v/%v/%v/%v", c.Flags, c.NodeFl, c.Dial, c.Expose, c.Rogue)
+		exSpawn, exApp := c.Expose, c.ExpOth
+		if c.Kind == "app" {
+			exSpawn, exApp = c.ExpOth, c.Expose
+		}
+		key := fmt.Sprintf("%v/%v/%v/%v/%v/%v", c.Flags, c.NodeFl, c.Dial, exSpawn, exApp, c.Rogue)
 		p := pairs[key]
 		if p == nil {
-			p = startReqPair(c.Flags, c.NodeFl, c.Dial, c.Expose, c.Rogue)
+			p = startReqPair(c.Flags, c.NodeFl, c.Dial, exSpawn, exApp, c.Rogue)
 			pairs[key] = p
 		}
 		if timeouts > 25 {
@@ -400,6 +413,9 @@ func runReq(n int, out, replay string) {
 		o.Stats["obs:"+obs]++
 		if env {
 			o.Stats["env-arrived"]++
+		}
+		if c.Expose != c.ExpOth {
+			o.Stats["exposure-switches-differ"]++
 		}
 	}
 	o.Write(out)
